@@ -1,6 +1,8 @@
 (** C14 — metadata filter matching is total and means what is documented.  Statements only.
     [glob] is the fnmatch oracle on two strings: the theorems hold for every such function. *)
 From Playback Require Import Base.Str Cassette.Matcher Cassette.MatcherFacts.
+From Coq Require Import QArith.
+Open Scope list_scope.
 
 Theorem C14_match_meaning : forall glob f r, match_value glob f r = Ans (match_spec glob f r).
 Proof. exact match_meaning. Qed.
@@ -26,3 +28,17 @@ Theorem C14_match_raises_refuted :
   legacy_match_value glob_simple (MStr (U"a*")) (MOpaque 1) = RaisesTypeError.
 Proof. exact legacy_match_raises. Qed.
 Print Assumptions C14_match_raises_refuted.
+
+(** the theorems of this file have no premise; this shows the specification they equate the code with is neither
+    constantly true nor constantly false (alternatives, an operator object, a pattern, a missing key, a comparison
+    that Python cannot order) (wp-audit) *)
+Example C14_spec_example :
+  let meta := [(U"tenant", MStr (U"acme")); (U"size", MInt 7); (U"tags", MList [MStr (U"x")])] in
+  meta_spec glob_simple [(U"tenant", MList [MStr (U"b*"); MStr (U"a*e")]);
+                         (U"size", MDict [(OPERATOR, MStr (U"<=")); (VALUE, MFloat (15 # 2))]);
+                         (U"absent", MList [MInt 1; MNone])] meta = true /\
+  meta_spec glob_simple [(U"tenant", MStr (U"b*"))] meta = false /\
+  meta_spec glob_simple [(U"absent", MInt 1)] meta = false /\
+  meta_spec glob_simple [(U"tags", MDict [(OPERATOR, MStr (U"<")); (VALUE, MInt 5)])] meta = false /\
+  match_meta glob_simple [(U"tags", MDict [(OPERATOR, MStr (U"<")); (VALUE, MInt 5)])] meta = Ans false.
+Proof. vm_compute. repeat split; reflexivity. Qed.
